@@ -134,7 +134,7 @@ impl World {
 }
 
 pub fn setup(rng: &mut Rng, sink: &mut Sink) -> World {
-    let gw = gateway::setup(rng, sink); // reset, users 0..4, gateway
+    let gw = gateway::setup_with_sets(rng, sink); // reset, users 0..4, gateway
     for i in 0..8 {
         sink.exec(&format!(
             "acct {} 10000000000000000000 {}:0:1000000,{}:0:1000000,{}:0:1000000,{}:0:1000000",
